@@ -95,9 +95,13 @@ def o1_route_step(ctx, lx, ld, custom, multicast, mlvl=None, twice=False):
     prefix, suffix = sym_bytes_distinct(ctx, custom)
     set_bytes(ctx, net, prefix, suffix)
     net.allow_multicast = multicast
+    if mlvl == "before":
+        # a history: the object first lived at another address and had its multicast level overridden; then it moves to X
+        net.node_address = sym_addr(ctx, "W", ctx.choice("previous_level", 5))
+        net.multicast_level = ctx.int("previous_multicast_level", 0, 4)
     net.node_address = x
     ctx.check(net.node_address == x, "node_address assignment took effect")
-    p0 = override_level(ctx, net, mlvl)
+    p0 = override_level(ctx, net, mlvl if mlvl != "before" else None)
     sent0 = len(radio.sent)
     body = ctx.bytes("body", 2)
     ok = net.send(RF24NetworkHeader(d, 0), body)
@@ -217,6 +221,9 @@ def jobs(tier):
                                    cost=(1 + lx) * (1 + ld) * (4 if custom else 1)))
             if (lx + ld) % 2 == 0 or tier != "quick":
                 out.append(Job("O1-two-routing-steps", o1_route_step, dict(lx=lx, ld=ld, custom=False, multicast=True, twice=True),
+                               cost=(1 + lx) * (1 + ld) * 3))
+            if (lx + 2 * ld) % 3 == 0 or tier != "quick":
+                out.append(Job("O1-routing-step-after-a-move", o1_route_step, dict(lx=lx, ld=ld, custom=False, multicast=True, mlvl="before"),
                                cost=(1 + lx) * (1 + ld) * 3))
             # the multicast_level override moves pipe 0 to another level and must leave unicast routing alone
             out.append(Job("O1-routing-step", o1_route_step, dict(lx=lx, ld=ld, custom=False, multicast=True, mlvl="sym"),
